@@ -1,5 +1,7 @@
 import OpenFecVerif.Proofs.DenseBits
 import OpenFecVerif.Gen.Popcount
+import OpenFecVerif.Proofs.Popcount
+import OpenFecVerif.Gen.Tab_of_hw8table
 import OpenFecVerif.Props.C03
 /-!
 # C18 — dense GF(2) matrix and linear solver agree with exact bit-matrix algebra
@@ -80,18 +82,46 @@ theorem C18_hweight32_naive (w : Nat) : Gen.of_hweight32_naive w = popcount w :=
     funext st j; rfl
   simp only [this, naive_fold w 32 (Nat.le_refl _)]
 
-/-- partial: the SWAR helpers are exact on every word that has a single non-zero byte lane (2048 + 1024 cases by kernel
-evaluation).  The statement for all words (`∀ x < 2^64, of_popcount_3 x = popcount x`) is not proved here; the compiled
-helpers are compared with the definition on boundary and random words every run. -/
-theorem C18_popcount_byte_lanes :
-    (∀ k, k < 8 → ∀ b, b < 256 → Gen.of_popcount_3 (b <<< (8 * k)) = ((popcount b : Nat) : Int)) ∧
-    (∀ k, k < 4 → ∀ b, b < 256 → Gen.of_hweight32 (b <<< (8 * k)) = popcount b) := by
-  constructor
-  · decide +kernel
-  · decide +kernel
+/-- `of_hweight32` (SWAR, regenerated from the C source each run) counts the one bits of **every** 32-bit word
+(`Proofs/Popcount.lean`: byte-lane decomposition, per-lane facts by kernel evaluation over one byte) -/
+theorem C18_hweight32 (w : Nat) (hw : w < 2 ^ 32) : Gen.of_hweight32 w = popcount w :=
+  Pop.hweight32_eq w hw
+
+/-- `of_popcount_3` (SWAR with the final multiplication, regenerated each run) counts the one bits of **every** 64-bit
+word; its `INT32` result is the non-negative count -/
+theorem C18_popcount_3 (x : Nat) (hx : x < 2 ^ 64) : Gen.of_popcount_3 x = ((Pop.popcount64 x : Nat) : Int) :=
+  Pop.popcount3_eq x hx
+
+/-- the 64-bit count is the sum of the counts of the two 32-bit words it is read from (`of_hweight_array` reads the
+row two words at a time) -/
+theorem C18_popcount64_words (x : Nat) : Pop.popcount64 x = popcount (x % 2 ^ 32) + popcount (x / 2 ^ 32 % 2 ^ 32) := by
+  rw [Pop.popcount64_bytes, Pop.popcount_bytes, Pop.popcount_bytes]
+  have e0 : x % 2 ^ 32 % 256 = x % 256 := by omega
+  have e1 : x % 2 ^ 32 / 256 % 256 = x / 256 % 256 := by omega
+  have e2 : x % 2 ^ 32 / 65536 % 256 = x / 65536 % 256 := by omega
+  have e3 : x % 2 ^ 32 / 16777216 % 256 = x / 16777216 % 256 := by omega
+  have e4 : x / 2 ^ 32 % 2 ^ 32 % 256 = x / 4294967296 % 256 := by omega
+  have e5 : x / 2 ^ 32 % 2 ^ 32 / 256 % 256 = x / 1099511627776 % 256 := by omega
+  have e6 : x / 2 ^ 32 % 2 ^ 32 / 65536 % 256 = x / 281474976710656 % 256 := by omega
+  have e7 : x / 2 ^ 32 % 2 ^ 32 / 16777216 % 256 = x / 72057594037927936 % 256 := by omega
+  rw [e0, e1, e2, e3, e4, e5, e6, e7]
+  omega
+
+/-- the byte table `of_hw8table` (regenerated each run) holds the count of every byte -/
+theorem C18_hw8table : ∀ b, b < 256 → GF.entry 8 Gen.of_hw8table 0 b = Pop.pc8 b := by decide +kernel
+
+/-- `of_hweight32_table`: the sum of the four table entries of the bytes of a word is its count (any byte order) -/
+theorem C18_hweight32_table (w : Nat) :
+    GF.entry 8 Gen.of_hw8table 0 (w % 256) + GF.entry 8 Gen.of_hw8table 0 (w / 256 % 256)
+      + GF.entry 8 Gen.of_hw8table 0 (w / 65536 % 256) + GF.entry 8 Gen.of_hw8table 0 (w / 16777216 % 256) = popcount w := by
+  rw [C18_hw8table _ (Nat.mod_lt _ (by decide)), C18_hw8table _ (Nat.mod_lt _ (by decide)),
+    C18_hw8table _ (Nat.mod_lt _ (by decide)), C18_hw8table _ (Nat.mod_lt _ (by decide)), Pop.popcount_bytes]
 
 end Dense
 
 -- non-vacuity: a well-formed 2 x 33 matrix (two words per row) with a bit in the second word
 example : ∃ m, Dense.alloc 2 33 = some m ∧ Dense.bit (Dense.set' m 1 32 1) 1 32 = true ∧ (Dense.set' m 1 32 1).nw = 2 := by
   refine ⟨_, rfl, ?_, ?_⟩ <;> decide
+
+-- non-vacuity of the popcount statements: an all-ones word and a word with bits in every byte lane
+example : Gen.of_hweight32 0xFFFFFFFF = 32 ∧ Gen.of_popcount_3 0x8040201008040201 = 8 := by decide
